@@ -1,0 +1,7 @@
+//go:build !verif
+
+package gldap
+
+// verifPoint is an instrumentation point of the verification harness; without the verif
+// build tag it is empty.
+func verifPoint(string, int, int) {}
